@@ -73,6 +73,27 @@ Section MutProofs.
     - reflexivity.
     - reflexivity.
   Qed.
+  (* the same for a header cell, reached through Headers() *)
+  Theorem update_header_shows : forall st c cs x,
+    t_header (tb_core (m_tab st)) = Some cs -> nth_error cs c = Some x ->
+    let v' := mview W json (mstep st (MUpdateHeader c)) in
+    exists vcs,
+      v_header v' = Some vcs
+      /\ option_map vc_text (nth_error vcs c) = Some (documented_text (m_env st) (fst (c_item x)))
+      /\ (forall c', c' <> c ->
+            nth_error vcs c' = option_map (fun y => snap_vcell W json (m_env st) (c_item y)) (nth_error cs c'))
+      /\ v_rows v' = v_rows (mview W json st) /\ v_ncols v' = v_ncols (mview W json st).
+  Proof.
+    intros st c cs x Hh Hc v'.
+    destruct (nth_error_upd_cell (reread (m_env st)) cs c x Hc) as [Hsame Hother].
+    unfold v', mview, table_view. cbn [mstep m_tab m_env on_core tb_core tb_align tb_skip v_rows v_header v_ncols].
+    unfold core_update_header. rewrite Hh. cbn [with_header t_rows t_header t_ncols option_map].
+    eexists. split; [reflexivity|]. split; [|split; [|split]].
+    - rewrite nth_error_map, Hsame. cbn [option_map c_item]. rewrite snap_text. reflexivity.
+    - intros c' Hne. rewrite nth_error_map, (Hother c' Hne). reflexivity.
+    - reflexivity.
+    - reflexivity.
+  Qed.
 End MutProofs.
 
 (* ---- a program that never mutates nor updates is the table machine over
